@@ -80,7 +80,7 @@ def gen_case(rng, tier, i):
     end, start, warm = ref.end, ref.start, ref.warm
     cuts = []
     for _ in range(rng.randint(1, 8)):
-        kind = rng.choice(["at", "at", "between", "between", "before_first", "warm", "end", "beyond", "random"])
+        kind = rng.choice(["at", "at", "between", "between", "before_first", "warm", "end", "beyond", "random", "tenths", "tenths"])
         if kind == "at" and times:
             t = rng.choice(times)
         elif kind == "between" and len(times) >= 2:
@@ -94,6 +94,9 @@ def gen_case(rng, tier, i):
             t = warm
         elif kind == "end":
             t = end
+        elif kind == "tenths" and clock != "int":
+            # decimal fractions (0.3, 0.9, 12.7): not exactly representable, and clock + (bound - clock) need not give the bound back
+            t = start + rng.randint(1, 10 * max(1, int(end - start))) / 10
         elif kind == "beyond":
             t = end + rng.choice([1, 5])
         else:
